@@ -64,7 +64,7 @@ class SignalWatch:
         self.asleep_since_cas = False
 
     def event(self, t, loc, kind, val, waiter_final_store):
-        if loc == L_WAITER and kind == 73:          # waiter registered itself
+        if loc == L_WAITER and kind // 10 == 7:          # waiter registered itself
             if val != 1000 + t:
                 return "thread %d registered %d in the signal" % (t, val)
             if self.registered is not None:
@@ -72,7 +72,7 @@ class SignalWatch:
             self.registered = t
             self.marker[t] = False
             self.xchg_after_cas = 0
-        elif loc == L_WAITER and kind == 43:        # a raise
+        elif loc == L_WAITER and kind // 10 == 4:        # a raise
             self.xchg_after_cas += 1
             self.xchg_since_clear += 1
             if val >= 1000:
@@ -103,7 +103,7 @@ class SignalWatch:
                 return "fiber %d scheduled although it is not registered (double wake-up)" % f
             del self.claimed[t]
             self.registered = None
-        elif loc == L_WAITER and kind == 35 and waiter_final_store:
+        elif loc == L_WAITER and kind // 10 == 3 and waiter_final_store:
             if self.xchg_since_clear == 0:
                 return "wait of thread %d returns although no raise happened since its previous return" % t
             self.xchg_since_clear = 0
@@ -173,7 +173,7 @@ def mon_uchan(case, tr, raw):
         why = sw.event(t, loc, kind, val, cur[0] == URECV)
         if why:
             return why
-        if loc == L_TAIL and kind == 43:
+        if loc == L_TAIL and kind // 10 == 4:
             if cur[0] != USEND:
                 return "tail exchanged by a non-sender"
             order.append(cur[1] % 1000)
@@ -233,7 +233,7 @@ def mon_bchan(case, tr, raw):
         why = sw.event(t, loc, kind, val, cur[0] == BRECV)
         if why:
             return why
-        if loc == L_HIGH and kind == 73:
+        if loc == L_HIGH and kind // 10 == 7:
             if cur[0] != BSEND:
                 return "high advanced by a non-sender"
             nhigh += 1
